@@ -36,6 +36,17 @@ def cases(rng, tier):
             else:
                 hist.append(rng.randrange(assoc))
         yield _case(pol, assoc, hist)
+    # TWO policy objects alive at the same time (a data cache and an instruction cache, or two sets of one cache), of the same
+    # and of different kind and associativity, accessed in turn: each must follow its own history (judged by the oracle; the
+    # correspondence drives the first of the two alone)
+    for k in range(40 if tier == "quick" else 600):
+        specs = [("plru", 4), ("plru", 2), ("plru", 8), ("lru", 3), ("plru", 16), ("lru", 4), ("plru", 1)]
+        (p1, a1), (p2, a2) = specs[k % len(specs)], specs[(k // len(specs) + k + 1) % len(specs)]
+        inter = [(rng.randrange(2), None) for _ in range(rng.choice([6, 12, 24]))]
+        inter = [(w, rng.randrange(a1 if w == 0 else a2)) for w, _ in inter]
+        c_ = _case(p1, a1, [i for w, i in inter if w == 0])
+        c_.meta.update({"other": [p2, a2], "inter": [list(x) for x in inter]})
+        yield c_
     if tier == "thorough":
         # exhaustive: every reachable state (by BFS over access sequences, dedup on the real repr)
         from architecture_simulator.uarch.memory.replacement_strategies import LRU, PLRU
@@ -111,8 +122,38 @@ def _ref_plru_victim(assoc, hist):
     return lo
 
 
+def _pair_oracle(c):
+    """two policies alive together, accessed in turn: victim (and LRU ages) of each after every access of either"""
+    from architecture_simulator.uarch.memory.replacement_strategies import LRU, PLRU
+    specs = [(c.meta["pol"], c.meta["assoc"]), tuple(c.meta["other"])]
+    objs = [LRU(a) if p == "lru" else PLRU(a) for p, a in specs]
+    done = [[], []]
+    for w, i in c.meta["inter"]:
+        try:
+            objs[w].access(i)
+        except Exception as e:
+            return [Failure("oracle", PROP, f"{specs[w][0]} assoc={specs[w][1]} (next to a {specs[1 - w][0]} assoc={specs[1 - w][1]}): access({i}) raised {type(e).__name__}", f"{specs[w][0]}:pair-raises")]
+        done[w].append(i)
+        for j in (0, 1):
+            p, a = specs[j]
+            if not done[j]:
+                continue
+            try:
+                v = objs[j].get_next_to_replace()
+            except Exception as e:
+                return [Failure("oracle", PROP, f"{p} assoc={a}: get_next_to_replace raised {type(e).__name__}", f"{p}:pair-raises")]
+            ref = _ref_lru(a, done[j])[0] if p == "lru" else _ref_plru_victim(a, done[j])
+            if v != ref:
+                return [Failure("oracle", PROP, f"{p} assoc={a} history {done[j]} (interleaved with a {specs[1 - j][0]} assoc={specs[1 - j][1]} policy, history {done[1 - j]}): victim {v}, reference {ref}", f"{p}:victim")]
+    return []
+
+
 def oracle(c):
     from architecture_simulator.uarch.memory.replacement_strategies import LRU, PLRU
+    if c.meta.get("inter"):
+        f_ = _pair_oracle(c)
+        if f_:
+            return f_
     pol, assoc, hist = c.meta.get("pol"), c.meta.get("assoc"), c.meta.get("hist")
     if pol is None:
         # corpus / replay case: recover from the lines
